@@ -136,8 +136,13 @@ def feed_consumers(llr_rows, bit_rows, min_mag, res, comp_prefix, cfg):
 
 def producers_case(p, res):
     # all option combinations of one family in ONE process, catalogue order then (fresh instances) reverse order
-    for spec in list(p["specs"]) + (list(reversed(p["specs"])) if len(p["specs"]) > 1 else []):
+    from kmc.engine import fresh_kaira
+    for spec in p["specs"]:
         producer_case({"spec": spec, "tier": p["tier"]}, res)
+    if len(p["specs"]) > 1:
+        fresh_kaira()          # the reverse order starts from pristine module state as well
+        for spec in reversed(p["specs"]):
+            producer_case({"spec": spec, "tier": p["tier"]}, res)
 
 
 def producer_case(p, res):
